@@ -501,7 +501,12 @@ pub fn gen_history(seed: u64, p: &Profile) -> History {
     // head of the queue in one call and have to keep their relative places
     let lane_stress = g.zero && g.k.chance(1, 4);
     if lane_stress {
-        let silent = 2 + g.k.below(3) as usize;
+        // now and then more silent orders than any batch or chunk size in sight
+        let silent = if g.k.chance(1, 12) {
+            31 + g.k.below(40) as usize
+        } else {
+            2 + g.k.below(3) as usize
+        };
         let loud = 1 + g.k.below(3) as usize;
         for i in 0..silent + loud {
             let id = g.fresh_id();
@@ -573,7 +578,44 @@ pub fn gen_history(seed: u64, p: &Profile) -> History {
         ops.push(Op::Add(o));
     }
     let len = if lane_stress { len.max(ops.len() + 6) } else { len };
+    // long histories: at some point a run of orders that are added and cancelled at once, so
+    // that a long row of dead tickets (33 ... 1030) lies between the live orders of the queue
+    let mut stale_run: Option<(usize, usize)> = if long && g.k.chance(1, 2) {
+        Some((
+            ops.len() + g.k.below(12) as usize,
+            *g.k.pick(&[33usize, 40, 64, 70, 130, 260, 520, 1030]),
+        ))
+    } else {
+        None
+    };
     while ops.len() < len {
+        if let Some((at, r)) = stale_run {
+            if ops.len() >= at {
+                stale_run = None;
+                for _ in 0..r {
+                    let id = g.fresh_id();
+                    let mut o = g.order(id);
+                    o.vis = o.vis.min(3);
+                    o.hid = o.hid.min(3);
+                    g.book_add(o);
+                    ops.push(Op::Add(o));
+                    g.book_remove(id);
+                    g.gone.pop();
+                    ops.push(Op::Upd(UpdSpec {
+                        kind: UpdKind::Cancel,
+                        id,
+                        price: 0,
+                        qty: 0,
+                        buy: false,
+                    }));
+                }
+                let id = g.fresh_id();
+                let o = g.order(id);
+                g.book_add(o);
+                ops.push(Op::Add(o));
+                continue;
+            }
+        }
         let which = g.w.weighted(&wts);
         match which {
             0 => {
